@@ -38,5 +38,14 @@ Theorem renderer_reset_fresh : forall s s' vb pal B,
 Proof. exact RenderProofs.renderer_reset_fresh. Qed.
 Print Assumptions renderer_reset_fresh.
 
+(* re-targeting a used Renderer (SetRasterizer with another rectangle, same or different size / origin) and
+   then decoding gives what a fresh Renderer on that rectangle gives *)
+Theorem renderer_retarget_fresh : forall s x0 y0 w h vb pal B,
+  wf_prog false B = true ->
+  exists d, r_log (rrun32 (set_rasterizer N32 s x0 y0 w h) (CReset vb pal :: B)) = r_log s ++ d /\
+            r_log (rrun32 (rinit N32 x0 y0 w h) (CReset vb pal :: B)) = d.
+Proof. exact RenderProofs.renderer_retarget_fresh. Qed.
+Print Assumptions renderer_retarget_fresh.
+
 Example ex_wf : wf_prog false [CSetCSel 3; CStartPath 0 0 0; CDraw opL [0; 0]; CArc true 0 0 0 false true 0 0; CEndPath; CSetLOD 0 0] = true.
 Proof. reflexivity. Qed.
